@@ -143,9 +143,19 @@ def _cs_contains(ex, st, self, x):
     return z3.Select(s_.dom(lift(d)), lift(x, STR))
 
 
-cls("CharStrings", fields={"charStrings": Dict(STR, INT), "charStringsIndex": Ref("SubrsIndex"), "charStringsAreIndexed": BOOL}, dynamic=True,
-    methods={"__init__": record_init("file", "charset", "globalSubrs", "private", "fdSelect", "fdArray")}, contains=_cs_contains,
-    notes="cffLib.CharStrings: charStrings = glyph name -> index (recording constructor; `in` looks at charStrings)")
+def _charstrings_init(ex, st, self, args, kwargs, node):
+    """CharStrings(file=None, charset=.., globalSubrs=.., private=.., fdSelect=.., fdArray=..): with no file, an empty name -> index
+    table; globalSubrs and private are stored"""
+    if args or set(kwargs) != {"file", "charset", "globalSubrs", "private", "fdSelect", "fdArray"} or not (is_const(kwargs["file"]) and kwargs["file"].py is None):
+        raise Unsupported("CharStrings(...) other than the file=None form", node)
+    ex.write_field(st, self, "globalSubrs", kwargs["globalSubrs"], node)
+    ex.write_field(st, self, "private", kwargs["private"], node)
+    ex.write_field(st, self, "charStrings", Val.const({}), node)
+
+
+cls("CharStrings", fields={"charStrings": Dict(STR, INT), "charStringsIndex": Ref("SubrsIndex"), "charStringsAreIndexed": BOOL, "private": Ref("PrivateDict"), "globalSubrs": Ref("GlobalSubrsIndex")},
+    dynamic=True, methods={"__init__": _charstrings_init}, contains=_cs_contains,
+    notes="cffLib.CharStrings: charStrings = glyph name -> index, empty when built without a file (`in` looks at charStrings)")
 cls("TopDict", fields={"charset": List(STR), "FontMatrix": List(REAL), "Private": Ref("PrivateDict"), "CharStrings": Ref("CharStrings"), "FontBBox": lib.BBOX,
                        "version": STR, "Notice": STR, "Copyright": STR, "FullName": STR, "FamilyName": STR, "Weight": Opt(STR), "isFixedPitch": INT, "ItalicAngle": REAL,
                        "UnderlinePosition": INT, "UnderlineThickness": INT},
@@ -292,7 +302,9 @@ contract(
         "not-requested": f"implies(not {_REQ}, self.otf.get('CFF ') == old(self.otf.get('CFF ')))",
     },
     canaries={"no-notice": f"{_REQ} and {_TD}.Notice == ''"},
-    modifies=["TTFont.tbl:CFF ", "CFFCharString.private", "CFFCharString.globalSubrs"],
+    # frame: the font's 'CFF ' entry and the compiled charstrings (private / globalSubrs attached); the three containers filled by the
+    # glyph loop belong to objects made here but are listed class-wide because the loop is summarised by an invariant
+    modifies=["TTFont.tbl:CFF ", "CFFCharString.private", "CFFCharString.globalSubrs", "CharStrings.charStrings", "SubrsIndex.items", "TopDict.charset"],
     loops={
         "for glyphName in self.glyphOrder": Loop(
             index="i",
@@ -304,6 +316,8 @@ contract(
         )
     },
     models={"fontTools.ttLib.ttFont.newTable": _newTable_cff, "fontTools.ttLib.newTable": _newTable_cff},
+    calls={f"{MOD}:normalizeStringForPostscript": f"{MOD}:normalizeStringForPostscript#function"},
+    extract_free=True,  # `items[glyphID] = charString`: position-wise facts instead of seq.extract (the clauses are position-wise)
     globals=G,
     runtime=Runtime(_cff_cases, c16._table_build(), call=lambda fn, a: fn(a["self"])),
 )
